@@ -222,6 +222,7 @@ func runC18(r *rt.Run) {
 	c18NearParallel(r)
 	c18Moved(r)
 	c18RectSeries(r)
+	c18BigConvex(r)
 	fd := 4
 	if r.Thorough() {
 		fd = 5
@@ -229,6 +230,70 @@ func runC18(r *rt.Run) {
 	foreignRings(r, fd)
 	r.Sample(map[string]any{"ring": [][2]float64{{1, 1}, {2, 0}, {2, 2}, {0, 2}, {0, 0}, {1, 1}}, "note": "reflex vertex at the seam of a closed ring"})
 	r.Sample(map[string]any{"ring": [][2]float64{{0, 0}, {1, 0}, {1, 0}, {0, 1}}, "note": "repeated vertex, unclosed"})
+}
+
+// c18BigConvex: rings of n positions for every n within 2 of a power of two
+// from 16 to 65536 that are convex by the definition - a parabola arc
+// (strictly convex, n <= 8194) and the outline of a rectangle with a vertex at
+// every unit step (collinear runs; odd n: one vertex repeated) - and the same
+// rings with one vertex pushed inwards (not convex); each from 4 start
+// vertices, in both directions.
+func c18BigConvex(r *rt.Run) {
+	var sizes []int
+	for k := 4; k <= 16; k++ {
+		for d := -2; d <= 2; d++ {
+			sizes = append(sizes, 1<<k+d)
+		}
+	}
+	r.Bounds["big_convex_ring_sizes"] = "2^k-2 .. 2^k+2, k = 4..16"
+	r.ParFor(len(sizes), func(i int, w *rt.Worker) {
+		n := sizes[i]
+		var rings [][]exact.P
+		var xfs []Xf
+		if n <= 8194 {
+			ps := make([]exact.P, n)
+			for j := range ps {
+				v := int64(j - n/2)
+				ps[j] = exact.P{X: 4 * v, Y: v * v}
+			}
+			rings, xfs = append(rings, ps), append(xfs, Xf{Scale: 1.0 / 16})
+			dent := append([]exact.P(nil), ps...)
+			dent[n/3].Y += 64 // above the chord of its neighbours: a reflex vertex
+			rings, xfs = append(rings, dent), append(xfs, Xf{Scale: 1.0 / 16})
+		}
+		{
+			m := n &^ 1
+			wd := m / 4
+			ht := m/2 - wd
+			var ps []exact.P
+			for x := 0; x < wd; x++ {
+				ps = append(ps, exact.P{X: int64(x), Y: 0})
+			}
+			for y := 0; y < ht; y++ {
+				ps = append(ps, exact.P{X: int64(wd), Y: int64(y)})
+			}
+			for x := wd; x > 0; x-- {
+				ps = append(ps, exact.P{X: int64(x), Y: int64(ht)})
+			}
+			for y := ht; y > 0; y-- {
+				ps = append(ps, exact.P{X: 0, Y: int64(y)})
+			}
+			if n&1 == 1 {
+				ps = append(ps[:n/5+1], ps[n/5:]...) // one vertex repeated
+			}
+			rings, xfs = append(rings, ps), append(xfs, Xf{Scale: 0.25})
+			dent := append([]exact.P(nil), ps...)
+			dent[1].Y++ // a bottom-edge vertex pushed inwards
+			rings, xfs = append(rings, dent), append(xfs, Xf{Scale: 0.25})
+		}
+		for ri, ring := range rings {
+			for _, rot := range []int{0, 1, n / 2, n - 1} {
+				seq := append(append([]exact.P(nil), ring[rot:]...), ring[:rot]...)
+				c18OneT(seq, xfs[ri], w)
+				c18OneT(reverse(seq), xfs[ri], w)
+			}
+		}
+	})
 }
 
 func evalC18(c *rt.Case) (bool, string, string, error) {
